@@ -28,7 +28,7 @@ REQUIRED_COUNTERS = ('historical_opens', 'historical_reads_compared', 'rereads_a
 
 
 def shards(tier, seed):
-    return split(tier, seed, 2000, 20000, 40, 900)
+    return split(tier, seed, 8000, 300000, 40, 900)
 
 
 def snapshot(conn):
